@@ -817,6 +817,22 @@ pub fn plan(tier: Tier, focus: &str) -> CrashPlan {
 			forced_height: 1,
 		});
 	}
+	// close() with flush-on-close while two rotated memtables are queued: crash points inside the
+	// shutdown flushes (the order in which they reach the manifest matters)
+	{
+		let opt = OptSet::base("L2-flush-on-close").flush_close(true);
+		let t = |k: &[u8], i: usize| Wop::W(vec![Write::set(k, &tok(i)), Write::set(b"counter", &tok(i))], false);
+		workloads.push(Workload {
+			opt: opt.clone(),
+			ops: vec![t(b"a", 0), Wop::P(Phys::Rotate), t(b"b", 1), Wop::P(Phys::Rotate), t(b"c", 2), Wop::P(Phys::Reopen), t(b"d", 3)],
+			forced_height: 1,
+		});
+		workloads.push(Workload {
+			opt,
+			ops: vec![t(b"a", 0), Wop::P(Phys::Rotate), t(b"a", 1), Wop::P(Phys::Rotate), Wop::W(vec![Write::new(Kind::Delete, b"a", b""), Write::set(b"counter", &tok(2))], false), Wop::P(Phys::Reopen)],
+			forced_height: 1,
+		});
+	}
 	if focus != "C07" || tier == Tier::Thorough {
 		for ops in sync_workloads() {
 			workloads.push(Workload {
@@ -1057,6 +1073,8 @@ pub fn replay(property: &str, r: &J) -> i32 {
 	println!("replaying {property} [{}] {} | {}", wl.opt.name, wops_short(&wl.ops), spec.short());
 	let run = || -> Result<Vec<String>, String> {
 		let t = trace_workload(&wl, None)?;
+		let mut spec = spec.clone();
+		spec.point = spec.point.min(t.tr.trace.len());
 		let fs = build_image(&t.tr.init, &t.tr.trace, &spec);
 		if std::env::var("VERIF_DEBUG").is_ok() {
 			for (i, e) in t.tr.trace.iter().enumerate().take(spec.point) {
